@@ -23,7 +23,6 @@ def scenarios(tier):
         S(["HS1", "HS2"], ["--inline-suppr"]),                 # same header suppression from two workers
         S(["E", "E2"], ["--suppress=zerodiv", "--suppress=arrayIndexOutOfBounds:e.c"]),   # global state update
         S(["E", "OK"], ["--showtime=summary"]),                # timers
-        S(["E", "H1"], ["--showtime=file"]),
         S(["E", "E2"], ["--library=posix", "--library=gnu"]),  # library data
         S(["Y", "E"], ["--error-exitcode=3"]),                 # critical errors
         S(["SB", "SM"], ["--inline-suppr", "--enable=style"]),
@@ -31,6 +30,7 @@ def scenarios(tier):
     if tier == "thorough":
         out += [
             S(["HU1", "HU2"], ["--inline-suppr", INFO]),
+            S(["E", "H1"], ["--showtime=file"]),
             S(["E", "H1", "H2"], [INFO, "--suppress=arrayIndexOutOfBounds:hdr.h"]),
             S(["E", "OK"], ["--showtime=top5_summary"]),
             S(["X", "XN"], ["--enable=style", "--output-file=out.txt"]),
@@ -50,7 +50,7 @@ def reports(err):
     return out
 
 
-def main(tier, replay=None):
+def main(tier, replay=None, only=None):
     ctx = Ctx("C16", tier, "model_checking", 1500 if tier == "quick" else 5400, replay)
     build.build("tsan")
     explore.shim()
@@ -67,7 +67,7 @@ def main(tier, replay=None):
         return 1 if reports(x.res.err) or x.flag else 0
     per = []
     execs = points = 0
-    for sc in scenarios(tier):
+    for sc in (scenarios(tier) if only is None else scenarios(tier)[only:only + 1]):
         if ctx.expired():
             break
         sc.setup()
@@ -95,6 +95,7 @@ def main(tier, replay=None):
                     return sha([sorted(x.res.err.decode("latin1").splitlines()), len(reps)])
                 explore.explore(pool.run, bound, visit, stats=st, deadline=ctx.deadline)
                 pool.close()
+                print("  %-60s -j%d schedules=%d %.0fs" % (sc.name[:60], jobs, st.execs, ctx.budget_s - ctx.time_left()), flush=True)
                 if st.capped:
                     ctx.capped = True
                 execs += st.execs
